@@ -155,7 +155,7 @@ func (mach *unmarshalMachinePrimitive) Step(_ *Unmarshaller, _ *unmarshalSlab, t
 			if mach.rv.Len() != 0 {
 				return true, ErrUnmarshalTypeCantFit{*tok, mach.rv, 0}
 			}
-			mach.rv.SetBytes(nil)
+			// (A zero-length array has nothing to set; SetBytes would panic on an array.)
 			return true, nil
 		default:
 			return true, ErrUnmarshalTypeCantFit{*tok, mach.rv, 0}
